@@ -45,7 +45,7 @@ ASSUMPTIONS = [
 PROBES = [
     "first_frame_split", "stft_zero_frame_deliveries_ge3", "finalize_pad_exceeds_remainder", "n_in_short_gap",
     "si_multi_block_delivery", "si_sub_block_delivery", "si_skip_across_deliveries", "empty_first", "empty_last",
-    "n_zero", "no_deliveries",
+    "n_zero", "no_deliveries", "long_recording",
 ]
 FAULT_KINDS = ["empty_delivery", "single_sample_delivery", "readonly_delivery", "strided_delivery"]
 
@@ -54,7 +54,39 @@ def warmup(tier=None):
     pass
 
 
+def _generate_long(rng):
+    """A long recording (around 2**16 or 2**20 samples) cut into a few large chunks: block-wise shortcuts that only
+    show beyond a power-of-two size. Kept cheap: coarse frame shift, one or two filters."""
+    for _ in range(50):
+        cfg, comp, discarded = configs.gen_config(rng, rng.choice(("stft", "stft", "si")))
+        L, S, block = configs.hints(comp)
+        if cfg["computer"] == "stft" and S >= 60:
+            break
+        if cfg["computer"] == "si" and S >= 12 and cfg["bank"]["num_filts"] <= 2:
+            break
+    else:
+        return None
+    big = rng.choice((1 << 16, 1 << 16, 1 << 20)) if cfg["computer"] == "stft" else (1 << 16)
+    n = big + rng.choice((-1, 0, 1, rng.randrange(2, 3000)))
+    cuts = sorted(set(rng.choice((big, big - 1, big + 1, rng.randrange(1, n), 1 << 15, 1 << 10)) for _ in range(rng.randrange(0, 4))))
+    lens, prev = [], 0
+    for c in cuts:
+        if 0 < c < n and c > prev:
+            lens.append(c - prev)
+            prev = c
+    lens.append(n - prev)
+    sig = {"kind": rng.choice(("noise", "impulses")), "seed": rng.randrange(1 << 30), "amp": 1.0,
+           "dtype": rng.choice(("float64", "float32"))}
+    return {"cfg": cfg, "signal": sig, "deliveries": [[int(k), "ro"] for k in lens],
+            "fbf_sizes": [int(rng.choice((1 << 16, 1 << 20, 50000)))] if rng.random() < 0.5 else [], "long": True,
+            "discarded_configs": discarded}
+
+
 def generate(rng, tier, k):
+    if rng.random() < 0.0012:
+        scn = _generate_long(rng)
+        if scn is not None:
+            return scn
     kind = None
     cfg, comp, discarded = configs.gen_config(rng, kind)
     L, S, block = configs.hints(comp)
@@ -197,6 +229,8 @@ def execute(scn, keep_trace=False):
 
     # probes on the schedule
     nonempty = [k for k in lens if k]
+    if scn.get("long"):
+        res.probe("long_recording")
     if n == 0:
         res.probe("n_zero")
     if not lens:
